@@ -4,7 +4,9 @@ After submit (dry-run / generate-only; DAGs) or seal (also cyclic graphs) the ha
 attempts {assign a parameter, set the meta flag, add pre-tasks (add_pretasks / add_pretasks_from)} on the task and on
 every configuration it computes as reachable (from its own shadow model: parameters, lists, dicts, task outputs and
 their tasks, pre-tasks, init tasks, cycles), interleaved with identifier requests; every attempt must raise and every
-identifier / job directory must stay what it was at submission."""
+identifier / job directory must stay what it was at submission.  copyconfig(node, name=value) - the documented way to
+derive a modified configuration - may build its copy or refuse; what every reachable node holds (values by object
+identity, meta flag, pre-task list) is compared with a snapshot taken at submission after every step."""
 import random
 from pathlib import Path
 
@@ -19,13 +21,13 @@ RULE = (
     "nodes and an attempt on a node other than the root; distinct = distinct (recipe, history seed)"
 )
 ASSUMPTIONS = [
-    "only the three operations named in the statement are attempted (in-place mutation of a list value is not 'assigning a parameter')",
+    "only the three operations named in the statement are required to raise (in-place mutation of a list value is not 'assigning a parameter'); copyconfig with overrides is attempted too but only judged through the value snapshot of the sealed graph",
     "any exception counts as a rejection (AttributeError, SealedError, AssertionError)",
     "reachability is computed by the harness from the recipe, not by the library's own walk",
 ]
 SHARDS = {"quick": 16, "thorough": 16}
 MINIMUMS = {
-    "quick": {"distinct_nontrivial": 800, "attempts": 20000, "attempt:assign": 5000, "attempt:meta": 3000, "attempt:pretask": 3000, "attempt:pretask_from": 1000, "attempts_on_inner": 10000, "ids_rechecked": 100000, "mode:seal": 200, "mode:dry-run": 200, "mode:generate": 50},
+    "quick": {"distinct_nontrivial": 800, "attempts": 20000, "attempt:assign": 5000, "attempt:meta": 3000, "attempt:pretask": 3000, "attempt:pretask_from": 1000, "attempts_on_inner": 10000, "ids_rechecked": 100000, "mode:seal": 200, "mode:dry-run": 200, "mode:generate": 50, "copies_with_overrides": 3000, "values_rechecked": 100000},
     "thorough": {"distinct_nontrivial": 25000, "attempts": 600000, "attempts_on_inner": 300000, "ids_rechecked": 3000000, "mode:seal": 6000, "mode:dry-run": 6000, "mode:generate": 1500},
 }
 N = {"quick": 1600, "thorough": 48000}
@@ -58,6 +60,22 @@ def a_value(rng, p, zoo, b, sh, nid):
             cur = b.real[nid].__xpm__.values.get(next(k for k, q in SCHEMA[sh.nodes[nid].cls]["params"].items() if q is p))
             return cur
     return None
+
+
+def values_fp(b, reach):
+    """What every reachable configuration holds (configurations by object identity): must not move after sealing."""
+    from experimaestro import Config
+
+    def fp(v):
+        if isinstance(v, Config):
+            return ("cfg", id(v))
+        if isinstance(v, (list, tuple)):
+            return ("list", tuple(fp(x) for x in v))
+        if isinstance(v, dict):
+            return ("dict", tuple(sorted((str(k), fp(x)) for k, x in v.items())))
+        return (type(v).__name__, repr(v))
+
+    return {n: tuple(sorted((k, fp(v)) for k, v in b.real[n].__xpm__.values.items())) + (("$meta", repr(b.real[n].__xpm__.meta)), ("$pre", tuple(id(x) for x in b.real[n].__xpm__.pre_tasks))) for n in reach}
 
 
 def explore(ctx, recipe, rng):
@@ -107,6 +125,7 @@ def explore(ctx, recipe, rng):
     ctx.count("mode:" + mode)
     reach = [n for n in sh.reachable(root, through_task=True) if n in b.real]
     at_submit = build.all_ids(b, reach)
+    values_at_submit = values_fp(b, reach)
     relpath = str(b.real[root].__xpm__.job.relpath) if mode != "seal" else None
     inner = False
     w = {"recipe": recipe, "mode": mode}
@@ -114,10 +133,22 @@ def explore(ctx, recipe, rng):
         nid = rng.choice(reach)
         obj = b.real[nid]
         cls = sh.nodes[nid].cls
-        kind = rng.choice(["assign", "assign", "meta", "pretask", "pretask_from", "id"])
+        kind = rng.choice(["assign", "assign", "meta", "pretask", "pretask_from", "id", "copy"])
         if kind == "id":
             obj.__xpm__.identifier
             obj.__xpm__.raw_identifier
+        elif kind == "copy":
+            # the documented way to derive a modified configuration from a sealed one: the copy may be built or refused,
+            # the sealed original must keep what it holds
+            from experimaestro import copyconfig
+
+            ctx.count("copies_with_overrides")
+            cands = [(n, p) for n, p in SCHEMA[cls]["params"].items() if not p.generator and not p.constant]
+            name, p = rng.choice(cands)
+            try:
+                copyconfig(obj, **{name: a_value(rng, p, zoo, b, sh, nid)})
+            except Exception:
+                pass
         else:
             ctx.count("attempts")
             ctx.count("attempt:" + kind)
@@ -153,6 +184,13 @@ def explore(ctx, recipe, rng):
                 )
             except Exception:
                 pass
+        vnow = values_fp(b, reach)
+        ctx.count("values_rechecked", len(reach))
+        if vnow != values_at_submit:
+            bad = next(n for n in reach if vnow[n] != values_at_submit[n])
+            diff = sorted(set(k for k, _ in set(vnow[bad]) ^ set(values_at_submit[bad])))
+            ctx.violation("values-changed-after-" + ("seal" if mode == "seal" else "submit") + ":" + kind, f"node {bad} ({sh.nodes[bad].cls}): {diff} differ from what the node held at {mode}, after step {stepno} ({kind} on {nid})", dict(w, node=bad, attempt=kind))
+            break
         now = build.all_ids(b, reach)
         ctx.count("ids_rechecked", len(reach) * 2)
         if now != at_submit:
